@@ -20,7 +20,8 @@ def srcFacts : Facts :=
     branchG := ⟨FactsC20.branchCheckErrFirst, FactsC20.branchCheckCompiledSecond, FactsC20.branchDeferStoresErr⟩,
     branchGuarded := Expected.C20.facts.branchGuarded,
     branchPropagates := Expected.C20.facts.branchPropagates,
-    compileMutates := FactsC20.compileAssigns != Expected.C20.compileAssigns }
+    compileMutates := FactsC20.compileAssigns != Expected.C20.compileAssigns,
+    compileChecksTypes := FactsC20.compileChecksNodeTypes }
 
 /-- Source fact tie: the regenerated facts are the ones the theorems below are proved for
     and the oracle runs with; the only error returned before the `defer` is installed is the
@@ -126,10 +127,6 @@ section rejects
 variable (im : Impl) (ord : Ord) (b : Builder) (he : b.buildError = none) (hc : b.compiled = false)
 include he hc
 
-private theorem guarded_err (g : Guards) (k : ErrKind) :
-    (guarded g b (.error k)).2 = .fresh k := by
-  simp [guarded, he, hc]
-
 /-- reserved node keys -/
 theorem rejects_reserved_key (n : NodeSpec) (h : n.key = START ∨ n.key = END) :
     (addNode srcFacts b n).2 = .fresh .reserved := by
@@ -215,39 +212,87 @@ theorem rejects_branch_unknown_start (s : Key) (t : Ty) (ends : List Key) (sk : 
 
 omit hc in
 /-- Compile: missing entry edge, missing exit edge, a pass-through node whose type could not
-    be inferred, and the invalid option combinations – each is an error (and, Compile being
-    side-effect free on failure, the same error on every retry). -/
+    be inferred (a pending edge between untyped nodes, or a node nothing ever touched), and
+    the invalid option combinations – each is an error (and, Compile being side-effect free on
+    failure, the same error on every retry). -/
 theorem rejects_at_compile (o : COpts)
     (h : b.startNodes = [] ∨ b.endNodes = [] ∨ (b.toValidate.any (fun p => !p.2.isEmpty)) = true ∨
+         b.hasUntyped = true ∨
          ((b.cmp = .chain ∨ b.cmp = .workflow) ∧ o.trigger ≠ .unset) ∨
          (b.cmp ≠ .workflow ∧ o.getState = true)) :
     ∃ k, compile srcFacts ord b o = (b, .fresh k, none) := by
-  have : ∃ k, compilePre b o = some k := by
+  have hct : srcFacts.compileChecksTypes = true := by decide
+  have : ∃ k, compilePre srcFacts b o = some k := by
     unfold compilePre
+    rw [hct]
     repeat' split
     all_goals first | exact ⟨_, rfl⟩ | (simp_all; done) |
-      (rcases h with h | h | h | ⟨h1 | h1, h2⟩ | ⟨h1, h2⟩ <;> simp_all)
+      (rcases h with h | h | h | h | ⟨h1 | h1, h2⟩ | ⟨h1, h2⟩ <;> simp_all)
   rcases this with ⟨k, hk⟩
   exact ⟨k, by simp [compile, he, hk]⟩
+
+omit he hc in
+theorem compilePre_typed (o : COpts) (hp : compilePre srcFacts b o = none) : b.hasUntyped = false := by
+  have hct : srcFacts.compileChecksTypes = true := by decide
+  unfold compilePre at hp
+  rw [hct] at hp
+  repeat' split at hp
+  all_goals first | (simp at hp; done) | simp_all
 
 omit hc in
 /-- Compile in all-predecessor mode: a control graph Kahn's loop cannot exhaust, or a step
     limit, is an error -/
 theorem rejects_dag_violations (o : COpts) (hd : isDag b o = true)
-    (h : validateDAG b ord = false ∨ o.maxSteps > 0) (hp : compilePre b o = none) :
+    (h : validateDAG b ord = false ∨ o.maxSteps > 0) (hp : compilePre srcFacts b o = none) :
     ∃ k, compile srcFacts ord b o = (b, .fresh k, none) := by
   have hm : srcFacts.compileMutates = false := by decide
-  have : ∃ k, compilePost b ord o = some k := by
+  have ht := compilePre_typed b o hp
+  have : ∃ k, compilePost b ord o = some (.fresh k) := by
     unfold compilePost
     rcases h with h | h
     · exact ⟨.dagLoop, by simp [hd, h]⟩
     · by_cases hv : validateDAG b ord = true
-      · exact ⟨.maxStepsInDag, by simp [hd, hv, h]⟩
+      · exact ⟨.maxStepsInDag, by simp [hd, hv, h, ht]⟩
       · exact ⟨.dagLoop, by simp [hd, hv]⟩
   rcases this with ⟨k, hk⟩
   exact ⟨k, by simp [compile, he, hp, mutatePre_off srcFacts hm, hk]⟩
 
 end rejects
+
+/-- **never a panic.** No call of the builder API, in any state, ends in a panic: every
+    outcome is `ok`, an error value, or `ErrGraphCompiled`. -/
+theorem never_panics (im : Impl) (ord : Ord) (b : Builder) (op : Op) :
+    (step srcFacts im ord b op).2.1 ≠ .panic := by
+  have hm : srcFacts.compileMutates = false := by decide
+  cases op with
+  | node n =>
+    simp only [step, addNode, guarded]
+    repeat' split
+    all_goals simp
+  | edge s e nc nd m =>
+    simp only [step, addEdge, guarded]
+    repeat' split
+    all_goals simp
+  | branch s t ends sk =>
+    simp only [step, addBranch, guarded]
+    repeat' split
+    all_goals simp
+  | compile o =>
+    simp only [step, compile, mutatePre_off srcFacts hm]
+    split
+    · simp
+    · split
+      · simp
+      · rename_i hp
+        have ht := compilePre_typed b o hp
+        split
+        · rename_i oc hpost
+          unfold compilePost at hpost
+          simp only [ht] at hpost
+          repeat' split at hpost
+          all_goals simp_all
+          all_goals (subst_vars; simp)
+        · simp
 
 /-- a failed Compile changes nothing: retrying gives the same answer -/
 theorem compile_retry_same (ord : Ord) (b : Builder) (o : COpts) (k : ErrKind)
@@ -269,6 +314,8 @@ theorem compile_retry_same (ord : Ord) (b : Builder) (o : COpts) (k : ErrKind)
 def exImpl : Impl := [(.conc 3, 0)]
 def lam (k : Key) (i o : Ty) : Op :=
   .node { key := k, passthrough := false, inTy := i, outTy := o, pre := none, post := none, nodeKeyOpt := false }
+def pt (k : Key) : Op :=
+  .node { key := k, passthrough := true, inTy := .any, outTy := .any, pre := none, post := none, nodeKeyOpt := false }
 def copts : COpts := { trigger := .unset, maxSteps := 0, getState := false }
 def b0 : Builder := Builder.new .graph (.conc 0) (.conc 0) none
 
@@ -295,6 +342,16 @@ theorem runnable_affected_when_compile_mutates :
     st.2.1 = [.ok, .ok, .ok, .ok] ∧
     st.2.2.map (fun r => (r.preNode, r.preNodeNow (step f exImpl Ord.id st.1 (.compile copts)).1))
       = [([("a", 1)], [("a", 2)])] := by
+  decide
+
+/-- Without the node-type check in compile (the unfixed source) a pass-through node that no
+    edge ever touched makes Compile panic instead of returning an error. -/
+theorem compile_panics_without_type_check :
+    let f := { Expected.C20.facts with compileChecksTypes := false }
+    (run f exImpl Ord.id b0
+      [lam "a" (.conc 0) (.conc 0), pt "p",
+       .edge START "a" false false none, .edge "a" END false false none, .compile copts]).2.1
+      = [.ok, .ok, .ok, .ok, .panic] := by
   decide
 
 /-- Without the deferred store the first error would not stick. -/
